@@ -18,7 +18,8 @@ annotations (both read from libcst's installed source on every run):
   import (AddImportsVisitor.add_needed_import).  pytype's stub printer writes
   a class nested in a class of the same stub as `Outer.Inner`
   (PrintVisitor.VisitNamedType keeps `node.name` when
-  LookupItemRecursive(self._unit, ..) finds it), so the merge adds
+  LookupItemRecursive(self._unit, ..) finds it - decided, and required of
+  every path, by R20.25 in rules/c20_spelling.py), so the merge adds
   `from Outer import Inner` to the source (defect D58).
 
 R20.22 / R20.23 decide the resulting obligations on merge_sources by *model
@@ -208,50 +209,18 @@ def _libcst_imports_dotted_names(ctx):
 
 
 def _printer_keeps_unit_local_dotted_names(ctx):
-  """PrintVisitor prints a dotted name that LookupItemRecursive finds inside
-  the unit being printed (a class nested in a class of the same stub) as it
-  is.  Returns facts; AnalysisError when the anchor is gone or not understood."""
-  pm = get_module(ctx, PR)
-  found_try = False
-  for mname, fn in sorted(pm.methods("PrintVisitor").items()):
-    if len(fn.args.args) < 2:
-      continue
-    node = fn.args.args[1].arg
-    for t in walk_no_nested(fn):
-      if not isinstance(t, ast.Try):
-        continue
-      look = [c for s in t.body for c in ast.walk(s) if isinstance(c, ast.Call)
-              and (dotted(c.func) or "").split(".")[-1] == "LookupItemRecursive"
-              and c.args and src(c.args[0]) == "self._unit"]
-      if not look:
-        continue
-      found_try = True
-      success = list(t.orelse)
-      if t.handlers and all(flow.terminates(h.body) for h in t.handlers):
-        par = pm.parent.get(t)
-        for fld in ("body", "orelse", "finalbody"):
-          blk = getattr(par, fld, None)
-          if isinstance(blk, list) and t in blk:
-            success += blk[blk.index(t) + 1:]
-      returned = {r.value.id for r in walk_no_nested(fn)
-                  if isinstance(r, ast.Return) and isinstance(r.value, ast.Name)}
-      for st in success:
-        for n in ast.walk(st):
-          if isinstance(n, ast.Return) and n.value is not None \
-              and src(n.value) == f"{node}.name":
-            return {"method": mname, "lookup": src(look[0])[:90],
-                    "prints": src(n.value)}
-          if isinstance(n, ast.Assign) and src(n.value) == f"{node}.name" and \
-              isinstance(n.targets[0], ast.Name) and n.targets[0].id in returned:
-            return {"method": mname, "lookup": src(look[0])[:90],
-                    "prints": f"{n.targets[0].id} = {src(n.value)}"}
-  if not found_try:
-    raise AnalysisError(
-        "printer: the LookupItemRecursive(self._unit, ..) test of PrintVisitor "
-        "was not found")
-  raise AnalysisError(
-      "printer: what PrintVisitor prints for a dotted name found inside the "
-      "unit is not understood")
+  """What PrintVisitor.VisitNamedType prints for a dotted name that
+  LookupItemRecursive finds inside the unit being printed (a class nested in a
+  class of the same stub): decided by the spelling analysis of
+  rules/c20_spelling.py, which also judges it (R20.25: it must be node.name
+  and nothing else).  Returns facts; AnalysisError when the anchor is gone or
+  the method is not understood."""
+  from rules import c20_spelling as sp
+  atoms, facts = sp.spellings(ctx)["VisitNamedType"]
+  return {"method": "VisitNamedType", "lookup": facts["lookup"],
+          "helpers_followed": facts["helpers_followed"],
+          "prints": sp.describe(atoms), "keeps_the_dotted_name": sp.NAME in atoms,
+          "judged_by": "R20.25"}
 
 
 # -- witness trees --------------------------------------------------------------------
